@@ -7,10 +7,16 @@
 (*   keymap   beaconKey.treasuresByKeys (the swamp's key -> treasure map)  *)
 (*   idx      one ordered index beacon (its map + treasuresByOrder slice)  *)
 (*   wbuf     treasuresWaitingForWriter (a beacon used as write buffer)    *)
+(*   bktreg   the swamp's registry of auto-built field buckets             *)
+(*   bkt      one field bucket (value -> treasures), built lazily by the   *)
+(*            first filtered read on its field path                        *)
 (*   the fields of ONE treasure: content, createdAt, createdBy,            *)
-(*   modifiedAt, modifiedBy, expiration, deleted, key, fileName, flags     *)
+(*   modifiedAt, modifiedBy, expiration, deleted, key, fileName, flags,    *)
+(*   and alloc = the freshly allocated object itself (written by           *)
+(*   treasure.New, read by whoever dereferences the pointer)               *)
 (* Locks                                                                   *)
 (*   bk / ib / wb   the RWMutex of the three beacons                       *)
+(*   bsm / bm       swamp.bucketsMu / the bucket's RWMutex                 *)
 (*   t              the treasure's RWMutex (readers: getters)              *)
 (*   g              the treasure's guard (exclusive, held across steps)    *)
 (*   cm             swamp.createMu                                         *)
@@ -74,7 +80,7 @@ G(fn, f, extra) == A(fn, {f}, "R", {L("t", "R")} \cup extra)
 \* gateway.treasureToKeyValuePair: the getters called to build a response
 Snapshot(pub) ==
   LET x == Pub(pub) \cup RvR IN
-  << G("treasure.GetKey", "key", x), G("treasure.GetContentType", "content", x), G("treasure.GetContentInt64", "content", x),
+  << A("gateway.treasureToKeyValuePair", {"alloc"}, "R", Pub(pub)), G("treasure.GetKey", "key", x), G("treasure.GetContentType", "content", x), G("treasure.GetContentInt64", "content", x),
      G("treasure.GetContentByteArray", "content", x), G("treasure.GetCreatedAt", "createdAt", x), G("treasure.GetCreatedBy", "createdBy", x),
      G("treasure.GetModifiedAt", "modifiedAt", x), G("treasure.GetModifiedBy", "modifiedBy", x), G("treasure.GetExpirationTime", "expiration", x) >>
 
@@ -100,19 +106,25 @@ IndexUpdate ==
      A("beacon.Add", {"idx"}, "W", {Sp("ib", "W"), Sp("g", "W")}),
      GC("treasure.GetKey", "key", "W"), GC("treasure.GetContentInt64", "content", "W"), GC("treasure.GetCreatedAt", "createdAt", "W"),
      GC("treasure.GetModifiedAt", "modifiedAt", "W"), GC("treasure.GetExpirationTime", "expiration", "W"),
-     A("beacon.SortByKeyAsc", {"idx"}, "W", {Sp("ib", "W"), Sp("g", "W")}) >>
+     A("beacon.SortBy", {"idx"}, "W", {Sp("ib", "W"), Sp("g", "W")}) >>
+
+\* notifyBucketsInsert / notifyBucketsUpdate: every initialised field bucket re-reads the body of the saved treasure
+BucketNotify(fn) ==
+  << A("swamp." \o fn, {"bktreg"}, "R", {L("bsm", "R"), Sp("g", "W")}),
+     A("bucket.OnUpdate", {"bkt"}, "W", {Sp("bm", "W"), Sp("g", "W")}),
+     A("treasure.GetContentByteArray", {"content"}, "R", {L("t", "R"), Sp("bm", "W"), Sp("g", "W"), L("pub", "R")}) >>
 
 \* SaveFunction on a treasure that is already indexed
 SaveExisting ==
   << LookupG, GG("treasure.IsContentChanged", "flags"), GG("treasure.GetContentType", "content"), GG("treasure.GetExpirationTime", "expiration") >>
-  \o IndexUpdate \o << A("beacon.Add", {"wbuf"}, "W", {L("wb", "W"), Sp("g", "W")}) >>
+  \o IndexUpdate \o << A("beacon.Add", {"wbuf"}, "W", {L("wb", "W"), Sp("g", "W")}) >> \o BucketNotify("notifyBucketsUpdate")
 
 \* SaveFunction on a new treasure: write buffer, key map insert, every built index
 SaveNew ==
   << LookupG, GG("treasure.GetKey", "key"), A("beacon.Delete", {"wbuf"}, "W", {L("wb", "W"), Sp("g", "W")}),
      A("beacon.Add", {"wbuf"}, "W", {L("wb", "W"), Sp("g", "W")}), A("beacon.Add", {"keymap"}, "W", {L("bk", "W"), Sp("g", "W")}),
      GG("treasure.GetCreatedAt", "createdAt"), GG("treasure.GetModifiedAt", "modifiedAt"), GG("treasure.GetExpirationTime", "expiration") >>
-  \o IndexUpdate
+  \o IndexUpdate \o BucketNotify("notifyBucketsInsert")
 
 \* deleteHandler
 DeleteSteps ==
@@ -121,6 +133,8 @@ DeleteSteps ==
                     ELSE << A("beacon.Delete", {"wbuf"}, "W", {L("wb", "W"), Sp("g", "W")}) >>)
   \o << A("beacon.Delete", {"keymap"}, "W", {L("bk", "W"), Sp("g", "W")}),
         A("beacon.Delete", {"idx"}, "W", {Sp("ib", "W"), Sp("g", "W")}), GC("treasure.GetKey", "key", "W"),
+        A("swamp.notifyBucketsDelete", {"bktreg"}, "R", {L("bsm", "R"), Sp("g", "W")}),
+        A("bucket.OnDelete", {"bkt"}, "W", {L("bm", "W"), Sp("g", "W")}),
         A("beacon.Count", {"keymap"}, "R", {L("bk", "R")}) >>
 
 \* reading from a built index
@@ -143,22 +157,36 @@ Path(n) ==
            << A("beacon.GetAll", {"keymap"}, "R", {L("bk", "R")}),
               A("beacon.PushManyFromMap", {"keymap"}, "R", {Sp("ib", "W")} \cup (IF Cold THEN {} ELSE {L("bk", "R")})),
               A("beacon.PushManyFromMap", {"idx"}, "W", {Sp("ib", "W")}),
+              A("beacon.SortBy", {"alloc"}, "R", {Sp("ib", "W")} \cup Pub(~Cold)),
               A("treasure.GetKey", {"key"}, "R", {L("t", "R"), Sp("ib", "W")} \cup Pub(~Cold)),
               A("treasure.GetContentInt64", {"content"}, "R", {L("t", "R"), Sp("ib", "W")} \cup Pub(~Cold)),
-              A("beacon.SortByKeyAsc", {"idx"}, "W", {Sp("ib", "W")}) >> \o IndexRead(~Cold)
+              A("beacon.SortBy", {"idx"}, "W", {Sp("ib", "W")}) >> \o IndexRead(~Cold)
     \* cold build of a time index: treasuresForBeacon walks the live map and filters by a getter
     [] n = "idx_cold_time" ->
            << A("beacon.GetAll", {"keymap"}, "R", {L("bk", "R")}),
               A("swamp.treasuresForBeacon", {"keymap"}, "R", IF Cold THEN {} ELSE {Sp("bk", "R")}),
+              A("swamp.treasuresForBeacon", {"alloc"}, "R", Pub(~Cold)),
               A("treasure.GetCreatedAt", {"createdAt"}, "R", {L("t", "R")} \cup Pub(~Cold)),
               A("treasure.GetModifiedAt", {"modifiedAt"}, "R", {L("t", "R")} \cup Pub(~Cold)),
               A("treasure.GetExpirationTime", {"expiration"}, "R", {L("t", "R")} \cup Pub(~Cold)),
               A("beacon.PushManyFromMap", {"idx"}, "W", {Sp("ib", "W")}),
+              A("beacon.SortBy", {"alloc"}, "R", {Sp("ib", "W")} \cup Pub(~Cold)),
               A("treasure.GetCreatedAt", {"createdAt"}, "R", {L("t", "R"), Sp("ib", "W")} \cup Pub(~Cold)),
-              A("beacon.SortByCreationTimeAsc", {"idx"}, "W", {Sp("ib", "W")}) >> \o IndexRead(~Cold)
+              A("beacon.SortBy", {"idx"}, "W", {Sp("ib", "W")}) >> \o IndexRead(~Cold)
     [] n = "idx_warm"  -> IndexRead(TRUE)
+    \* first filtered read on a body field: GetOrBuildBucket snapshots the key map with CloneUnorderedTreasures
+    \* (a copy made under beaconKey's WRITE lock and every treasure's guard) and builds the bucket from the copy
+    [] n = "bucket_cold" ->
+           << A("swamp.GetOrBuildBucket", {"bktreg"}, "R", {L("bsm", "R")}), A("swamp.GetOrBuildBucket", {"bktreg"}, "W", {L("bsm", "W")}),
+              A("beacon.CloneUnorderedTreasures", {"keymap"}, "R", {Sp("bk", "W")}),
+              A("treasure.Clone", Fields \ {"flags"}, "R", {Sp("bk", "W"), Sp("g", "W"), L("pub", "R")}),
+              A("bucket.BuildEquality", {"bkt"}, "W", {L("bm", "W")}),
+              A("bucket.DrainPending", {"bkt"}, "W", {L("bm", "W")}),
+              A("bucket.LookupEqual", {"bkt"}, "R", {L("bm", "R")}) >> \o Snapshot(TRUE)
+    [] n = "bucket_warm" ->
+           << A("swamp.GetOrBuildBucket", {"bktreg"}, "R", {L("bsm", "R")}), A("bucket.LookupEqual", {"bkt"}, "R", {L("bm", "R")}) >> \o Snapshot(TRUE)
     [] n = "set_upd"   -> << Lookup >> \o SetFields \o SaveExisting
-    [] n = "set_new"   -> << Lookup, A("treasure.New", Fields, "W", {L("cm", "W"), L("pub", "W")}), S("treasure.BodySetKey", {"key", "deleted"}) >>
+    [] n = "set_new"   -> << Lookup, A("treasure.New", Fields \cup {"alloc"}, "W", {L("cm", "W"), L("pub", "W")}), S("treasure.BodySetKey", {"key", "deleted"}) >>
                           \o SetFields \o SaveNew
     [] n = "inc"       -> << Lookup, GG("treasure.GetContentType", "content"), S("treasure.SetModifiedAt", {"modifiedAt"}),
                              GG("treasure.GetContentInt64", "content"), S("treasure.SetContentInt64", {"content"}) >> \o SaveExisting
@@ -174,7 +202,7 @@ Path(n) ==
                               A("treasure.ConvertToByte", Fields \ {"flags"}, "R", {Sp("g", "W"), L("pub", "R")}),
                               S("treasure.BodySetFileName", {"fileName"}) >>
 
-AllPathNames == {"get", "getbykeys", "count", "exists", "getall", "idx_cold_key", "idx_cold_time", "idx_warm",
+AllPathNames == {"get", "getbykeys", "count", "exists", "getall", "idx_cold_key", "idx_cold_time", "idx_warm", "bucket_cold", "bucket_warm",
                  "set_upd", "set_new", "inc", "patch", "del", "shift", "filewriter"}
 
 -----------------------------------------------------------------------------
